@@ -105,6 +105,9 @@ FIXED = [
     ("C18", "C18/passthrough-script-style-content-escaped", "68d60d0",
      "TAL-free document with < & inside <script>/<style>: content HTML-escaped on every expansion (not equivalent, "
      "not a fixed point)"),
+    ("C12", "C12/request-never-returns@base.py:open", "9f696ad",
+     "a FIFO named like a healthy entry's sidecar ('alpha.txt.3d', 'gamma/.abstract') or like its .cap file ('.cap/alpha.txt'): "
+     "open() never returns, every listing of the directory hangs"),
     ("C01", "C01/reply-depends-on-outside-world:outside-populated:object", "00133d0",
      "listing a directory whose gophermap holds a climbing link ('0x<TAB>../../secret.txt', '/../secret.txt'): the server "
      "stat()ed the file above the root, opened its .abstract sidecar and showed type, size and abstract in the listing"),
